@@ -65,6 +65,17 @@ func (d *pwDist) CDF(x float64) float64 {
 }
 func (d *pwDist) Bounds() (float64, float64) { return d.lob + d.off, d.hib + d.off }
 
+// discDistW offers a pure-jump piecewise CDF as a stats.DiscreteDist (unit lattice).
+type discDistW struct{ pwDist }
+
+func (d *discDistW) Step() float64 { return 1 }
+func (d *discDistW) PMF(x float64) float64 {
+	if x != math.Floor(x) {
+		return 0
+	}
+	return d.CDF(x) - d.CDF(x-1)
+}
+
 // ownDist provides its own quantile function and sampler: the generic routines must dispatch to them.
 type ownDist struct{ pwDist }
 
@@ -145,6 +156,24 @@ func invcdfReplay(in io.Reader, raw bool, args []string) (*Summary, error) {
 				sum.viol("InvCDF-cost", c, "%d CDF evaluations", d.calls)
 			}
 		}
+		// a pure-jump distribution on integers, offered to the library as a DiscreteDist (PMF, Step): same quantiles
+		pure := true
+		for i, b := range ic.BP {
+			if i > 0 && b.Lo != ic.BP[i-1].Hi {
+				pure = false
+			}
+		}
+		if pure {
+			dd := &discDistW{pwDist{bp: ic.BP, unit: float64(ic.Unit), lob: float64(ic.LoB), hib: float64(ic.HiB)}}
+			inv := stats.InvCDF(dd)
+			for yi, q := range ic.Q {
+				y := float64(yi+1) / float64(ic.Unit)
+				sum.Checks++
+				if got := inv(y); !closeRat(got, big.NewRat(q[0], q[1]), 1e-12, 1e-9) {
+					sum.viol("InvCDF-discrete", c, "DiscreteDist wrapper: InvCDF(%v)=%.15g want %d/%d", y, got, q[0], q[1])
+				}
+			}
+		}
 		// dispatch to the distribution's own methods
 		od := &ownDist{pwDist{bp: ic.BP, unit: float64(ic.Unit), lob: float64(ic.LoB), hib: float64(ic.HiB)}}
 		if g := stats.InvCDF(od)(0.25); g != -777+0.25 {
@@ -169,6 +198,16 @@ func invcdfReplay(in io.Reader, raw bool, args []string) (*Summary, error) {
 			sum.Checks++
 			if math.Float64bits(a) != math.Float64bits(b) || math.Float64bits(a) != math.Float64bits(inv(y)) {
 				sum.viol("Rand-deterministic", c, "draw %d: %v vs %v vs InvCDF(u)=%v", k, a, b, inv(y))
+				break
+			}
+		}
+		// one generator driven by two identically seeded sources in turn: each source gets its own deterministic sequence
+		ra, rb, rc := rand.New(rand.NewSource(baseSeed+11)), rand.New(rand.NewSource(baseSeed+11)), rand.New(rand.NewSource(baseSeed+11))
+		gen, ref := stats.Rand(d), stats.Rand(d)
+		for k := 0; k < 6; k++ {
+			a, b, w := gen(ra), gen(rb), ref(rc)
+			if math.Float64bits(a) != math.Float64bits(w) || math.Float64bits(b) != math.Float64bits(w) {
+				sum.viol("Rand-deterministic", c, "one generator, two equal sources: draw %d gives %v and %v, a fresh generator gives %v", k, a, b, w)
 				break
 			}
 		}
@@ -214,12 +253,21 @@ func invcdfReplay(in io.Reader, raw bool, args []string) (*Summary, error) {
 		for _, d := range []dd{stats.BinomialDist{N: 10, P: 0.3}, stats.BinomialDist{N: 25, P: 0.5}, stats.HypergeometicDist{N: 20, K: 7, Draws: 5}, stats.UDist{N1: 3, N2: 4}, stats.UDist{N1: 4, N2: 3, T: []int{2, 1, 3, 1}}} {
 			lo, hi := d.Bounds()
 			inv := stats.InvCDF(d)
+			ys := []float64{}
 			for y := 0.013; y < 1; y += 0.0371 {
+				ys = append(ys, y)
+			}
+			for k := lo; k <= hi; k += d.Step() { // exact jump levels: the smallest x with CDF(x) >= CDF(k) is k (or an earlier point of equal CDF)
+				if cv := d.CDF(k); cv > 0 && cv < 1 {
+					ys = append(ys, cv)
+				}
+			}
+			for _, y := range ys {
 				want, ok := math.NaN(), true
 				for k := lo; k <= hi; k += d.Step() {
 					cv := d.CDF(k)
-					if math.Abs(cv-y) < 1e-7 {
-						ok = false
+					if math.Abs(cv-y) < 1e-7 && cv != y {
+						ok = false // within rounding distance of a level but not the level itself
 					}
 					if cv >= y {
 						want = k
